@@ -1,6 +1,7 @@
 INIT Init
 NEXT Next
-CONSTANT MaxDen = 12
+CONSTANT DenLo = 1
+CONSTANT DenHi = 12
 CONSTANT MaxLen = 4
 CONSTANT MaxAmt = 2000
 CONSTANT Dense = 60
